@@ -25,6 +25,21 @@ class Ctx:
         from . import conds
 
         conds.INT_TEXTS = set(repo.int_texts) if hasattr(repo, "int_texts") else set()
+        from . import summary as _summary
+
+        _summary.SEQ_TEXTS = set(repo.seq_texts) if hasattr(repo, "seq_texts") else set()
+        # class hierarchy facts for case tables: isinstance(x, Sub) implies isinstance(x, Base)
+        from .props import _codec
+
+        pairs = {("bool", "int")}
+        if hasattr(repo, "classes"):
+            short = {}
+            for c in repo.classes.values():
+                short.setdefault(c.name.split(".")[-1], []).append(c)
+            for name, lst in short.items():
+                if len(lst) == 1:
+                    pairs |= {(name, b.name.split(".")[-1]) for b in lst[0].mro[1:] if len(short.get(b.name.split(".")[-1], ())) == 1}
+        _codec.SUBCLASS = pairs
         self.t0 = time.time()
         self.obligations: list[dict] = []
         self.notes: list[str] = []
